@@ -77,7 +77,7 @@ def make_spec(case):
 
 def surr_spec(case):
     """Multi-output provider family."""
-    sargs = {"base": ["x"], "chain": ["c0"], "own": ["a"], "loop": ["c1"], "loop3": ["c3"],
+    sargs = {"base": ["x"], "deep": ["x"], "chain": ["c0"], "own": ["a"], "loop": ["c1"], "loop3": ["c3"],
              "names-surrogate": ["x"], "names-surrogate-and-missing": ["x"], "surrogate-names-itself": ["s"]}[case["variant"]]
     comps = {
         "s": {"kind": "surrogate", "name": "s", "args": sargs, "outputs": ["a", "b"],
@@ -89,6 +89,10 @@ def surr_spec(case):
         "c3": {"kind": "reaction", "name": "c3", "args": ["a", "b", "c1"],
                "expr": ["add", ["mul", V(5.0), N("a")], ["add", ["mul", V(7.0), N("b")], N("c1")]], "stoich": {"x": 1}},
     }
+    if case["variant"] == "deep":
+        # a chain of consumers behind one output (c1 <- c4 <- c5) next to a consumer of the other output
+        comps["c4"] = {"kind": "derived", "name": "c4", "args": ["c1"], "expr": ["add", V(17.0), ["mul", V(5.0), N("c1")]]}
+        comps["c5"] = {"kind": "derived", "name": "c5", "args": ["c4", "b"], "expr": ["add", N("c4"), ["mul", V(0.5), N("b")]]}
     # a surrogate's *name* is not a value: only its outputs are. Components naming it are incomplete.
     if case["variant"] == "names-surrogate":
         comps["c2"] = {"kind": "derived", "name": "c2", "args": ["s", "b"], "expr": ["add", V(13.0), ["mul", V(3.0), N("b")]]}
@@ -385,6 +389,8 @@ def generate(tier):
     for variant in ("base", "chain", "own", "loop", "loop3", "names-surrogate", "names-surrogate-and-missing", "surrogate-names-itself"):
         for perm in it.permutations(["s", "c0", "c1", "c2", "c3"]):
             cases.append({"family": "surr", "variant": variant, "perm": list(perm)})
+    for perm in it.permutations(["s", "c1", "c2", "c4", "c5"]):
+        cases.append({"family": "surr", "variant": "deep", "perm": list(perm)})
     yield cases
 
 
